@@ -2093,22 +2093,20 @@ def infidelity(
 
         return n_samples, convergence_infids
 
+    # The identity component of the noise operators does not contribute to the infidelity,
+    # cf eq. (39): for a complete orthonormal basis the trace tensor term reduces to
+    # delta_kl - tr(C_k) tr(C_l) / d, i.e. the fidelity filter function minus a rank-one term
+    basis_traces = np.einsum('kjj->k', pulse.basis.view(ndarray))
     if which == 'total':
-        if not pulse.basis.istraceless:
-            # Fidelity not simply sum of diagonal of decay amplitudes Gamma_kk
-            # but trace tensor plays a role, cf eq. (39). For traceless bases,
-            # the trace tensor term reduces to delta_ij.
-            traces = pulse.basis.four_element_traces
-            traces_diag = (sparse.diagonal(traces, axis1=2, axis2=3).sum(-1)
-                           - sparse.diagonal(traces, axis1=1, axis2=3).sum(-1)).todense()
-
-            control_matrix = pulse.get_control_matrix(omega, show_progressbar, cache_intermediates)
-            filter_function = np.einsum('ako,blo,kl->abo',
-                                        control_matrix.conj(), control_matrix, traces_diag)/pulse.d
-        else:
-            filter_function = pulse.get_filter_function(omega, which='fidelity',
-                                                        show_progressbar=show_progressbar,
-                                                        cache_intermediates=cache_intermediates)
+        filter_function = pulse.get_filter_function(omega, which='fidelity',
+                                                    show_progressbar=show_progressbar,
+                                                    cache_intermediates=cache_intermediates)
+        control_matrix = pulse.get_control_matrix(omega, show_progressbar, cache_intermediates)
+        filter_function = filter_function - np.einsum(
+            'ao,bo->abo',
+            np.einsum('k,ako->ao', basis_traces, control_matrix.conj()),
+            np.einsum('k,ako->ao', basis_traces, control_matrix)
+        )/pulse.d
     else:
         # which == 'correlations'
         if pulse.is_cached('omega') and not np.array_equal(pulse.omega, omega):
@@ -2116,6 +2114,13 @@ def infidelity(
                              + 'but omega not equal to cached frequencies.')
 
         filter_function = pulse.get_pulse_correlation_filter_function()
+        if pulse.is_cached('control_matrix_pc'):
+            control_matrix = pulse.get_pulse_correlation_control_matrix()
+            filter_function = filter_function - np.einsum(
+                'gao,hbo->ghabo',
+                np.einsum('k,gako->gao', basis_traces, control_matrix.conj()),
+                np.einsum('k,gako->gao', basis_traces, control_matrix)
+            )/pulse.d
 
     integrand = _get_integrand(spectrum, omega, idx, which, 'fidelity',
                                filter_function=filter_function)
